@@ -708,7 +708,8 @@ func HashSetIndex(vm *Thread, set *HashSetOfValue, val value.Value) (int, value.
 		// when we reach the start index
 		// all slots are checked
 		if index == startIndex {
-			return -1, value.Undefined
+			// no empty slot, but a slot left by a deleted entry can be reused
+			return deletedIndex, value.Undefined
 		}
 	}
 }
